@@ -143,6 +143,8 @@ type FnCtx struct {
 	props       []string // property tags for K1 obligations
 	sitecount   int
 	heapReads   int
+	pendingHWM  []string
+	hwm         map[string]string // heap version term -> watermark when that version was created
 	protected   []protCell
 	dbgUses     map[string][]ssa.Value
 	pfx         string // name prefix for inlined bodies
@@ -316,6 +318,9 @@ func (c *FnCtx) heapIn(st map[string]string, name string) string {
 	t := heapSMTName(name, "0")
 	c.declare(t, c.heapSort(name))
 	c.entry[name] = t
+	if name != "$wm" && c.hwm != nil {
+		c.hwm[t] = heapSMTName("$wm", "0")
+	}
 	if name == "$wm" {
 		c.gfact(fmt.Sprintf("(>= %s 0)", t))
 	}
@@ -328,6 +333,9 @@ func (c *FnCtx) setH(name, term string) {
 	c.declare(n, c.heapSort(name))
 	c.fact(fmt.Sprintf("(= %s %s)", n, term))
 	c.st[name] = n
+	if name != "$wm" && c.hwm != nil {
+		c.hwm[n] = c.H("$wm")
+	}
 }
 
 func (c *FnCtx) freshN() int { c.fresh++; return c.fresh }
@@ -339,6 +347,9 @@ func (c *FnCtx) havocHeap(name string) string {
 		c.fact(fmt.Sprintf("(>= %s %s)", n, c.H(name)))
 	}
 	c.st[name] = n
+	if name != "$wm" && c.hwm != nil {
+		c.pendingHWM = append(c.pendingHWM, n) // the watermark is havocked together with the heaps: resolved lazily
+	}
 	return n
 }
 
@@ -1017,4 +1028,13 @@ func posOf(ins ssa.Instruction) token.Pos {
 // after every var initializer of the package.
 func (c *FnCtx) isInit() bool {
 	return c.F.Name() == "init" && c.F.Synthetic != ""
+}
+
+// loadWM: an upper bound for references read out of the given heap version — the watermark at the
+// time the version was created (its contents cannot mention objects allocated later)
+func (c *FnCtx) loadWM(heapTerm string) string {
+	if w, ok := c.hwm[heapTerm]; ok {
+		return w
+	}
+	return c.H("$wm")
 }
